@@ -8,13 +8,13 @@ let opt_s (o : n list option) : string list =
 (* canonical text of a JSON value (Spec/Json.v jvalue): numbers as the exact normalised decimal *)
 let rec canon_jv (j : jvalue) : string =
   match j with
-  | JNull -> "null"
-  | JBool true -> "true"
-  | JBool false -> "false"
-  | JNum (neg, m, e) -> "#" ^ (if neg then "-" else "") ^ string_of_n m ^ "e" ^ string_of_z e
-  | JStr s -> "\"" ^ (if s = [] then "" else hex_of_bstr s) ^ "\""
-  | JArr l -> "[" ^ String.concat "," (List.map canon_jv l) ^ "]"
-  | JObj m -> "{" ^ String.concat "," (List.map (fun (k, x) -> "\"" ^ (if k = [] then "" else hex_of_bstr k) ^ "\":" ^ canon_jv x) m) ^ "}"
+  | JvNull -> "null"
+  | JvBool true -> "true"
+  | JvBool false -> "false"
+  | JvNum (neg, m, e) -> "#" ^ (if neg then "-" else "") ^ string_of_n m ^ "e" ^ string_of_z e
+  | JvStr s -> "\"" ^ (if s = [] then "" else hex_of_bstr s) ^ "\""
+  | JvArr l -> "[" ^ String.concat "," (List.map canon_jv l) ^ "]"
+  | JvObj m -> "{" ^ String.concat "," (List.map (fun (k, x) -> "\"" ^ (if k = [] then "" else hex_of_bstr k) ^ "\":" ^ canon_jv x) m) ^ "}"
 
 (* code-unit strings: 4 hex digits per unit *)
 let units_of_hex4 (s : string) : n list =
